@@ -427,7 +427,7 @@ impl Printer<'_> {
                 1 => self.out.push('\n'),
                 2 => {
                     self.indent(ind);
-                    self.out.push_str("# comment\n");
+                    self.out.push_str(["# comment\n", "# comment é 語\n", "# 😀 à\n"][self.layout.pick(3) as usize]);
                 }
                 3 => {
                     self.indent(ind);
@@ -455,7 +455,7 @@ impl Printer<'_> {
             }
             match if self.layout.no_trivia { 0 } else { self.layout.pick(6) } {
                 1 => self.out.push_str("  "),
-                2 => self.out.push_str(" # trailing"),
+                2 => self.out.push_str([" # trailing", " # trailing é", " # 語"][self.layout.pick(3) as usize]),
                 _ => {}
             }
             self.out.push('\n');
@@ -767,6 +767,18 @@ impl Printer<'_> {
             }
             E::Fn(..) => self.expr_ind(v, 0, ind),
             E::Print(..) => self.stmt(v, ind),
+            // spelling freedom: a tuple of two or more simple values may be written without parentheses
+            E::Tuple(items)
+                if items.len() >= 2
+                    && self.no_break == 0
+                    && self.inline_only == 0
+                    && items.iter().all(|x| matches!(x, E::Int(n) if *n >= 0) || matches!(x, E::Id(_) | E::Str(_) | E::Index(..) | E::Dot(..) | E::Bool(_) | E::Null))
+                    && self.layout.pick(2) == 1 =>
+            {
+                self.inline_only += 1;
+                self.items(items, ind);
+                self.inline_only -= 1;
+            }
             _ => {
                 // layout freedom: the value starts on its own, deeper indented line
                 let chain_like = matches!(v, E::Id(_) | E::Dot(..) | E::Call(..) | E::Index(..) | E::Str(_) | E::Bin(..) | E::List(_));
@@ -992,6 +1004,50 @@ impl Printer<'_> {
                 self.paren_if(rp, r, ind);
             }
             E::Paren(x) => {
+                // layout freedom inside brackets: a left-associative chain of one operator may put every
+                // operand on its own line, all at the same indentation
+                if let E::Bin(op, ..) = &**x {
+                    if matches!(op, Op::Add | Op::Mul | Op::And | Op::Or) && self.no_break == 0 && self.inline_only == 0 && self.layout.pick(8) == 1 {
+                        let mut operands: Vec<&E> = vec![];
+                        let mut cur: &E = x;
+                        while let E::Bin(o2, l, r) = cur {
+                            if o2 != op || child_needs_parens(*op, r, true) {
+                                break;
+                            }
+                            operands.push(r);
+                            cur = l;
+                        }
+                        let is_simple = |o: &E| matches!(o, E::Id(_) | E::Str(_) | E::Bool(_) | E::Null | E::Index(..) | E::Dot(..) | E::Call(..) | E::Paren(_)) || matches!(o, E::Int(n) if *n >= 0) || matches!(o, E::Float(f) if *f >= 0.0);
+                        if operands.len() >= 2 && !child_needs_parens(*op, cur, false) && is_simple(cur) && operands.iter().all(|o| is_simple(o)) {
+                            operands.push(cur);
+                            operands.reverse();
+                            let inner = self.cur_ind + 4 * (self.breaks + 1) + 2;
+                            self.out.push('(');
+                            self.no_break += 1;
+                            for (i, o) in operands.iter().enumerate() {
+                                self.out.push('\n');
+                                self.indent(inner);
+                                let simple = matches!(o, E::Id(_) | E::Str(_) | E::Bool(_) | E::Null | E::Index(..) | E::Dot(..) | E::Call(..) | E::Paren(_)) || matches!(o, E::Int(n) if *n >= 0) || matches!(o, E::Float(f) if *f >= 0.0);
+                                if simple {
+                                    self.expr_ind(o, 0, ind);
+                                } else {
+                                    self.out.push('(');
+                                    self.expr_ind(o, 0, ind);
+                                    self.out.push(')');
+                                }
+                                if i + 1 < operands.len() {
+                                    self.out.push(' ');
+                                    self.out.push_str(op.text());
+                                }
+                            }
+                            self.no_break -= 1;
+                            self.out.push('\n');
+                            self.indent(self.cur_ind + 4 * self.breaks + if self.breaks > 0 { 2 } else { 0 });
+                            self.out.push(')');
+                            return;
+                        }
+                    }
+                }
                 self.out.push('(');
                 self.expr_ind(x, 0, ind);
                 self.out.push(')');
